@@ -716,3 +716,236 @@ def search_C06(rng, deadline, broken):
 def replay_C06(fi):
     return _c06_one(_obs_from_descr(fi["observer"]), datetime.date.fromisoformat(fi["date"]),
                     _zone_from_descr(fi["zone"])) is None
+
+
+# ------------------------------------------------------------------ C01 / C04
+def _tier_tol(lat, rising, t_utc):
+    a = abs(lat)
+    tol = 0.04 if a <= 75 else (0.08 if a <= 85 else 0.3)
+    tod = t_utc.hour * 60 + t_utc.minute
+    if rising and tod < 20:
+        tol = max(tol, 0.5)       # pinned behaviour: rising event just after 00:00 UTC (D11 tier)
+    return tol
+
+
+def _c01_event(o, d, z, fn, arg, rising, with_refraction=True):
+    """returns a failure description or None for one event call"""
+    import astral.sun as sun
+    from astral import SunDirection
+    from oracle import sun_almanac as A
+    tz = z.tzinfo
+    di = SunDirection.RISING if rising else SunDirection.SETTING
+    try:
+        if fn == "dawn_dusk":
+            t = (sun.dawn if rising else sun.dusk)(o, d, arg, tz)
+            zen = 90.0 + arg
+        elif fn == "rise_set":
+            t = (sun.sunrise if rising else sun.sunset)(o, d, tz)
+            zen = 90.0 + 16.0 / 60.0
+        else:
+            t = sun.time_at_elevation(o, arg, d, di, tz, with_refraction)
+            el = arg
+            if el > 90.0:
+                el, rising = 180.0 - el, False
+            zen = 90.0 - el
+    except ValueError:
+        return None
+    adj = A.dip(o.elevation) if isinstance(o.elevation, float) else 0.0
+    zeff = zen + adj + (A.refraction(zen + adj) if with_refraction else 0.0)
+    target = 90.0 - zeff
+    u = t.astimezone(datetime.timezone.utc)
+    lat = max(-89.8, min(89.8, o.latitude))
+    alt, _ = A.alt_az(lat, o.longitude, u)
+    tol = _tier_tol(o.latitude, rising, u)
+    if abs(alt - target) > tol:
+        return "sun's centre at %.4f deg at the returned instant %s, defining altitude %.4f (tolerance %.2f)" % (
+            alt, t.isoformat(), target, tol)
+    a1 = A.alt_az(lat, o.longitude, u - datetime.timedelta(seconds=60))[0]
+    a2 = A.alt_az(lat, o.longitude, u + datetime.timedelta(seconds=60))[0]
+    if abs(a2 - a1) > 0.02:       # skip grazing events where the direction is not resolvable
+        if rising and a2 < a1:
+            return "rising event at %s but the sun is descending" % t.isoformat()
+        if (not rising) and a2 > a1:
+            return "setting event at %s but the sun is climbing" % t.isoformat()
+    return None
+
+
+def _rand_event_spec(rng):
+    import gens
+    k = rng.random()
+    rising = rng.random() < 0.5
+    if k < 0.35:
+        return "dawn_dusk", gens.rand_depression(rng), rising, True
+    if k < 0.6:
+        return "rise_set", None, rising, True
+    return "tae", rng.choice([6.0, -6.0, -4.0, rng.uniform(-20, 60), rng.uniform(100, 170)]), rising, \
+        rng.random() < 0.6
+
+
+def search_C01(rng, deadline, broken):
+    import gens
+    while time.time() < deadline:
+        o, d, z = _sun_inputs(rng)
+        if isinstance(o.elevation, tuple) or abs(o.latitude) > 89.8:
+            continue                           # tuple form: KF-FEATURE (C10); beyond ±89.8: clamped
+        fn, arg, rising, wr = _rand_event_spec(rng)
+        try:
+            r = _c01_event(o, d, z, fn, arg, rising, wr)
+        except Exception as exc:  # noqa: BLE001
+            r = "raised %r" % (exc,)
+        if r:
+            return _descr(o, d, z, function=fn, arg=arg, rising=rising, with_refraction=wr, clause=r)
+    return None
+
+
+def replay_C01(fi):
+    return _c01_event(_obs_from_descr(fi["observer"]), datetime.date.fromisoformat(fi["date"]),
+                      _zone_from_descr(fi["zone"]), fi["function"], fi["arg"], fi["rising"],
+                      fi["with_refraction"]) is None
+
+
+def _c04_one(o, d, z, fn, dep, rising):
+    """verdict truthfulness for dawn/dusk/sunrise/sunset at a float elevation"""
+    import astral.sun as sun
+    from oracle import sun_almanac as A
+    tz = z.tzinfo
+    if fn == "dawn_dusk":
+        f = (sun.dawn if rising else sun.dusk)
+        call_ = lambda: f(o, d, dep, tz)  # noqa: E731
+        zen = 90.0 + dep
+    else:
+        f = (sun.sunrise if rising else sun.sunset)
+        call_ = lambda: f(o, d, tz)  # noqa: E731
+        zen = 90.0 + 16.0 / 60.0
+    adj = A.dip(o.elevation) if isinstance(o.elevation, float) else 0.0
+    target = 90.0 - (zen + adj + A.refraction(zen + adj))
+    lat = max(-89.8, min(89.8, o.latitude))
+    start = datetime.datetime(d.year, d.month, d.day, tzinfo=tz)
+    end = start + datetime.timedelta(days=1)
+    su, eu = start.astimezone(datetime.timezone.utc), end.astimezone(datetime.timezone.utc)
+    lo, hi = A.altitude_extremes(lat, o.longitude, su)
+    margin = 0.6 if abs(o.latitude) <= 85 else 1.0
+    cr = [c for c in A.crossings(lat, o.longitude, target, su, eu, rising)
+          if c - su >= datetime.timedelta(minutes=30) and eu - c >= datetime.timedelta(minutes=30)]
+    # D11 (known finding): a rising event within ~20 min of 00:00 UTC may be lost to the UTC-day wrap
+    cr_clear = [c for c in cr if not (rising and (c.hour * 60 + c.minute < 20 or c.hour * 60 + c.minute > 1420))]
+    clear = lo + margin <= target <= hi - margin
+    try:
+        t = call_()
+        return None
+    except ValueError as exc:
+        msg = str(exc)
+    if clear and cr_clear:
+        return "raised %r although the sun crosses %.3f deg %s at %s (day's altitude range %.2f..%.2f)" % (
+            msg, target, "rising" if rising else "setting", cr_clear[0].isoformat(), lo, hi)
+    if hi + margin <= target and ("always above" in msg):
+        return "reported %r although the sun stays below %.3f deg all day (max %.2f)" % (msg, target, hi)
+    if lo - margin >= target and ("always below" in msg):
+        return "reported %r although the sun stays above %.3f deg all day (min %.2f)" % (msg, target, lo)
+    return None
+
+
+def search_C04(rng, deadline, broken):
+    import gens
+    while time.time() < deadline:
+        o, d, z = _sun_inputs(rng)
+        if isinstance(o.elevation, tuple) or abs(o.latitude) > 89.8:
+            continue
+        if isinstance(o.elevation, float) and o.elevation > 0 and abs(o.latitude) > 85:
+            continue                           # N3 (known finding): elevated polar observers
+        fn = rng.choice(["dawn_dusk", "rise_set"])
+        dep = rng.choice([6.0, 12.0, 18.0, rng.uniform(0.3, 25)])
+        rising = rng.random() < 0.5
+        try:
+            r = _c04_one(o, d, z, fn, dep, rising)
+        except Exception as exc:  # noqa: BLE001
+            r = "raised %r" % (exc,)
+        if r:
+            return _descr(o, d, z, function=fn, dep=dep, rising=rising, clause=r)
+    return None
+
+
+def replay_C04(fi):
+    return _c04_one(_obs_from_descr(fi["observer"]), datetime.date.fromisoformat(fi["date"]),
+                    _zone_from_descr(fi["zone"]), fi["function"], fi["dep"], fi["rising"]) is None
+
+
+# ------------------------------------------------------------------ C10
+def _in_kink(h):
+    """N2 (known finding): dip + 16' within the non-monotone window of the refraction model"""
+    from oracle import sun_almanac as A
+    x = A.dip(h) + 16.0 / 60.0 if h > 0 else 16.0 / 60.0
+    return 0.5745 <= x <= 0.5756
+
+
+def _c10_pair(lat, lon, d, h1, h2):
+    import astral.sun as sun
+    from astral import Observer
+    us = datetime.timedelta(microseconds=2)
+    o1, o2 = Observer(lat, lon, h1), Observer(lat, lon, h2)
+    for name, f, sign in (("sunrise", sun.sunrise, 1), ("sunset", sun.sunset, -1),
+                          ("dawn", sun.dawn, 1), ("dusk", sun.dusk, -1)):
+        try:
+            t1, t2 = f(o1, d), f(o2, d)
+        except ValueError:
+            continue
+        if abs(t1 - t2) > datetime.timedelta(hours=6):
+            continue
+        if sign == 1 and t2 > t1 + us:
+            return "%s at %r m is %s, later than %s at the lower elevation %r m" % (name, h2, t2, t1, h1)
+        if sign == -1 and t2 < t1 - us:
+            return "%s at %r m is %s, earlier than %s at the lower elevation %r m" % (name, h2, t2, t1, h1)
+        if h2 <= 0 and t1 != t2:
+            return "%s differs between non-positive elevations %r and %r" % (name, h1, h2)
+    return None
+
+
+def search_C10(rng, deadline, broken):
+    import gens
+    import astral.sun as sun
+    from astral import Observer
+    while time.time() < deadline:
+        lat, lon = rng.uniform(-70, 70), gens.rand_lon(rng)
+        d = gens.rand_date(rng, wide=False)
+        hs = sorted(rng.choice([rng.uniform(-500, 0), 0.0, 10 ** rng.uniform(-3, 5.6),
+                                rng.uniform(0, 9000), float(rng.randint(0, 9000))]) for _ in range(2))
+        if hs[0] == hs[1] or _in_kink(hs[0]) or _in_kink(hs[1]):
+            continue
+        vals = [hs[0], hs[1]]
+        if rng.random() < 0.3:      # ints must behave like the equal floats
+            vals = [int(hs[0]) if hs[0] == int(hs[0]) else hs[0], int(hs[1]) if hs[1] == int(hs[1]) else hs[1]]
+        try:
+            r = _c10_pair(lat, lon, d, vals[0], vals[1])
+        except Exception as exc:  # noqa: BLE001
+            r = "raised %r" % (exc,)
+        if r:
+            return {"clause": r, "latitude": lat, "longitude": lon, "date": d.isoformat(),
+                    "h1": vals[0], "h2": vals[1]}
+        # sea level: zero or negative behaves exactly like 0.0
+        hneg = rng.choice([-500.0, -1.0, -0.001, -0.0, 0])
+        try:
+            a = sun.sunrise(Observer(lat, lon, hneg), d)
+            b = sun.sunrise(Observer(lat, lon, 0.0), d)
+            if a != b:
+                return {"clause": "sunrise at elevation %r (%s) differs from sea level (%s)" % (hneg, a, b),
+                        "latitude": lat, "longitude": lon, "date": d.isoformat(), "h1": hneg, "h2": 0.0}
+        except ValueError:
+            pass
+        # feature tuples: sign only (the size is KF-FEATURE)
+        dh, dist = rng.choice([-1, 1]) * 10 ** rng.uniform(-3, 4), 10 ** rng.uniform(0, 5)
+        try:
+            lv = sun.sunrise(Observer(lat, lon, 0.0), d)
+            tv = sun.sunrise(Observer(lat, lon, (dh, dist)), d)
+            if abs(lv - tv) < datetime.timedelta(hours=6):
+                if dh > 0 and tv > lv or dh < 0 and tv < lv:
+                    return {"clause": "feature tuple (%r, %r): sunrise %s vs level %s has the wrong sign" % (
+                        dh, dist, tv, lv), "latitude": lat, "longitude": lon, "date": d.isoformat(),
+                        "h1": 0.0, "h2": 0.0}
+        except ValueError:
+            pass
+    return None
+
+
+def replay_C10(fi):
+    return _c10_pair(fi["latitude"], fi["longitude"], datetime.date.fromisoformat(fi["date"]),
+                     fi["h1"], fi["h2"]) is None
